@@ -696,38 +696,40 @@ class App:
         npts = min(self.N, 4)
         D = self.rand_dirs()[:npts]
         Hs, st = Hn[:npts], s_old[:npts]
+        # Step size per point.  The energy of the J2 models is analytic away from the yield switch (only C^m
+        # across it with rate sensitivity), with features on the scale of the distance to the switch.  For each
+        # point take the LARGEST step h <= 2e-4 (least rounding in the second difference) whose stencil
+        #   (a) stays on one side of the switch with margin, and
+        #   (b) spans less than a third of its distance to the switch (truncation ~ (span/distance)^8),
+        # halving from 2e-4; points for which no such step exists down to 2e-4/2^12 are skipped and counted.
+        hs = np.full(npts, 2e-4)
+        use = np.ones(npts, dtype=bool)
         if self.visco:
-            hstep = 2e-4
             scaleE = self.ref.K + self.ref.G + sum(g for g, _ in self.ref.branches)
         else:
-            # stencil half-width 4h must stay well inside the scale on which the energy varies (the yield strain):
-            # truncation ~ (h / yield strain)^8
-            hstep = min(2e-4, 0.02 * self.ref.Y0 / self.ref.E)
             scaleE = self.ref.E
-        # premise: the stencil does not straddle the yield switch
-        use = np.ones(npts, dtype=bool)
-        if not self.visco:
+            margin = 10 * self.ref.TOL * self.ref.Y0
             for i in range(npts):
-                fs = np.array([self.ref.yield_fn_trial(Hs[i] + o * hstep * D[i], st[i]) for o in OFF])
-                margin = 10 * self.ref.TOL * self.ref.Y0
-                if not (np.all(fs > margin) or np.all(fs < -margin)):
+                ok = False
+                h = 2e-4
+                for _ in range(13):
+                    fs = np.array([self.ref.yield_fn_trial(Hs[i] + o * h * D[i], st[i]) for o in OFF])
+                    one_side = bool(np.all(fs > margin) or np.all(fs < -margin))
+                    if one_side and np.min(np.abs(fs)) >= 3.0 * (np.max(fs) - np.min(fs)):
+                        ok = True
+                        break
+                    h *= 0.5
+                if ok and self.ref.rate and self.tiny_root(Hs[i], st[i], dt):
+                    ok = False
+                if not ok:
                     use[i] = False
-                elif fs[4] > 0:
-                    ctx.probe('fd:yielding_point')
-                else:
-                    ctx.probe('fd:elastic_point')
-                if self.ref.rate and use[i]:
-                    # With power-law rate sensitivity the energy is only C^m across the yield switch
-                    # (plastic increment ~ overstress^m), so its high derivatives blow up near the switch and an
-                    # 8th-order stencil is useless there even if it does not straddle it: require the stencil to
-                    # span less than a third of its distance to the switch.
-                    if np.min(np.abs(fs)) < 3.0 * (np.max(fs) - np.min(fs)) or self.tiny_root(Hs[i], st[i], dt):
-                        use[i] = False
-                        ctx.skip('C10.fd/too_close_to_rate_switch')
-        ctx.skip('C10.fd/straddles_yield_switch', int(np.sum(~use)))
+                    continue
+                hs[i] = h
+                ctx.probe('fd:yielding_point' if fs[4] > 0 else 'fd:elastic_point')
+        ctx.skip('C10.fd/too_close_to_yield_switch', int(np.sum(~use)))
         if not np.any(use):
             return
-        Hst = np.concatenate([Hs[i][None] + (OFF * hstep)[:, None, None] * D[i][None] for i in range(npts)])
+        Hst = np.concatenate([Hs[i][None] + (OFF * hs[i])[:, None, None] * D[i][None] for i in range(npts)])
         sst = np.repeat(st, len(OFF), axis=0)
         # pad to the batch size the jitted function was compiled for (avoid recompiles): tile
         reps = int(np.ceil(len(Hst) / self.N))
@@ -747,6 +749,7 @@ class App:
             if not np.all(np.isfinite(Ws[i])):
                 ctx.skip('C10.fd/nonfinite_energy')
                 continue
+            hstep = float(hs[i])
             d1 = float(C1 @ Ws[i]) / hstep
             d2 = float(C2 @ Ws[i]) / hstep**2
             a1 = float(np.sum(P[i] * D[i]))
